@@ -24,6 +24,9 @@ func init() {
 	register("C06", "T-WORK", ruleTWork)
 	register("C06", "T-ERRFLOW", ruleErrFlow)
 	register("C06", "T-STRING", ruleTString)
+	register("C06", "X-TOTAL", ruleXTotal) // "a usable expression": no nil query behind a nil error
+	register("C06", "K-PRE", ruleKPre)     // a constant pattern that does not compile is an error of Compile...
+	register("C06", "K-REST", ruleKRest)   // ...every time (failed loads are not remembered)
 
 	// C05 = the C04 non-interference argument + build-time write census + cache lockset
 	register("C05", "S-ENTRY", ruleSEntry)
@@ -35,6 +38,9 @@ func init() {
 	register("C05", "S-POOL", ruleSPool)
 	register("C05", "K-LOCK", ruleKLock)
 	register("C05", "S-CALLER", ruleSCaller)
+	register("C05", "K-SHARED", ruleKShared)
+	register("C16", "K-SHARED", ruleKShared)
+	register("C04", "K-SHARED", ruleKShared)
 
 	register("C16", "K-LOCK", ruleKLock)
 	register("C16", "K-REST", ruleKRest)
@@ -93,6 +99,8 @@ func init() {
 	register("C08", "C08-LIT", ruleNumLiteral)
 	register("C08", "S-SHARED", ruleSShared)
 	register("C08", "S-WRITES", ruleSWritesRT)
+	register("C08", "X-RESULT", ruleXResult) // a number-valued function yields a float64 on every path (an int is not a number to asNumber)
+	register("C09", "X-RESULT", ruleXResult)
 
 	register("C14", "B-NAMETEST", ruleBNameTest)
 	register("C14", "G-EXPECT", ruleGExpect)
@@ -101,9 +109,27 @@ func init() {
 	register("C14", "B-ARGS", ruleBArgs)
 	register("C14", "S-SHARED", ruleSShared)
 	register("C14", "S-WRITES", ruleSWritesRT)
+	register("C14", "S-POOL", ruleSPool)
 
 	register("C03", "N-POS", ruleNPos)
 	register("C03", "G-PREDS", ruleGPreds)
+	register("C01", "G-PATH", ruleGPath)
+	register("C01", "N-CLIMB", ruleNClimb)
+	register("C02", "N-CLIMB", ruleNClimb) // path-existence predicates over the following/preceding axes
+	register("C07", "S-RESET", ruleSReset) // a node-set operand is re-armed for every candidate the comparison is evaluated for
+	register("C07", "S-PROP", ruleSProp)
+	register("C01", "A-FOLD", ruleAFold)
+	register("C10", "A-FOLD", ruleAFold)
+	register("C12", "A-FOLD", ruleAFold)
+	register("C12", "B-HASH", ruleBHash)   // a union consumed through MoveNext: both operands evaluated from the start node
+	register("C12", "S-CLONE", ruleSClone) // every Select/Evaluate starts from a private, complete copy of the tree
+	register("C11", "S-CLONE", ruleSClone)
+	register("C13", "S-CLONE", ruleSClone)
+	register("C03", "S-CLONE", ruleSClone)
+	register("C15", "C12-EVAL", ruleExprEvaluate) // the exported Evaluate hands out documented result types only
+	register("C13", "A-FOLD", ruleAFold)
+	register("C10", "G-PATH", ruleGPath)
+	register("C17", "G-PATH", ruleGPath)
 	register("C03", "A-SMART", ruleASmart)
 	register("C03", "S-RESET", ruleSReset)
 	register("C03", "A-DISPATCH", ruleADispatch)
@@ -140,6 +166,7 @@ func init() {
 	register("C13", "N-NODROP", ruleNoDrop)
 	register("C13", "B-DEDUP", ruleDedup)
 
+	register("C07", "G-LEVELS", ruleGLevels) // or < and < equality < relational: how an unparenthesised mix of them groups
 	register("C07", "A-OPS", ruleAOps)
 	register("C07", "A-CELLS", ruleACells)
 	register("C07", "N-RESTORE", ruleNRestore)
